@@ -202,7 +202,8 @@ AbsMapOp(e, A, A2, ph) ==
              dr == {z[2] : z \in rest} \cup {z[4] : z \in rest}
                    \cup (IF e.n = 1 THEN {z[4] : z \in taken} ELSE IF e.n = 2 THEN {z[2] : z \in taken} ELSE {})
          IN AR({}, dr,
-               /\ NoDupSeq(e.y) /\ Y \subseteq AY
+               \* sub-bag: untracked values may legitimately repeat
+               /\ \A y \in Y : Cardinality({i \in 1..Len(e.y) : e.y[i] = y}) <= Cardinality({z \in A : proj(z) = y})
                /\ (IF e.j < 0 \/ e.j >= Cardinality(A) THEN Len(e.y) = Cardinality(A) ELSE Len(e.y) = e.j)
                /\ HintsOK(e.r, Cardinality(A))
                /\ e.pn = "")
